@@ -11,46 +11,46 @@ func init() {
 	register(&PropSpec{ID: "C19",
 		Explanation: "Decides, from the SSA form of /repo, that (a) no writer or exported formatting helper writes through memory reachable from the cue list or a package-level variable (interprocedural mod-sets with root classification), (b) every range over a map in the writers' call-graph closure carries only order-insensitive state (map inserts, integer sums, appends that are sorted before any use), (c) no clock/random/environment source other than the injectable Now and no address-printing fmt operand is reachable from a writer. Together these imply the output bytes are a function of the cue list and Now. Not decided: determinism of encoding/xml and fmt themselves.",
 		Assumptions: commonAssumptions,
-		Rules: []Rule{{"writer-purity", ruleWriterPurity}, {"maporder", ruleMapOrder}, {"nondet", ruleWriterNondet}},
+		Rules:       []Rule{{"writer-purity", ruleWriterPurity}, {"maporder", ruleMapOrder}, {"nondet", ruleWriterNondet}},
 	})
 	register(&PropSpec{ID: "C20",
 		Explanation: "Decides that outside the package initialiser no function of the library stores to a package-level variable, to memory reachable from one, or to unknown memory (interprocedural effect analysis over all 153 functions, incl. the per-call teletext decoder which must copy the shared G0 table before patching it), that there is no go/select statement and no unsafe import, and lists every global read with its classification. Independent calls then share only immutable tables, documented goroutine-safe library objects (regexp, Replacer, BiMap, log) and the injectable clock. Not decided: races inside dependencies.",
 		Assumptions: commonAssumptions,
-		Rules: []Rule{{"no-global-write", ruleNoSharedState}, {"zero-concurrency", ruleZeroConcurrency}},
+		Rules:       []Rule{{"no-global-write", ruleNoSharedState}, {"zero-concurrency", ruleZeroConcurrency}},
 	})
 	register(&PropSpec{ID: "C09",
 		Explanation: "Structural clauses of Sync (Subtitles.Add): frame condition (writes only StartAt, EndAt and the item slice).",
 		Assumptions: commonAssumptions,
-		Rules: []Rule{{"frame", ruleFrame("Subtitles.Add")}},
+		Rules:       []Rule{{"frame", ruleFrame("Subtitles.Add")}},
 	})
 	register(&PropSpec{ID: "C10",
 		Explanation: "Structural clauses of Fragment: frame condition.",
 		Assumptions: commonAssumptions,
-		Rules: []Rule{{"frame", ruleFrame("Subtitles.Fragment")}},
+		Rules:       []Rule{{"frame", ruleFrame("Subtitles.Fragment")}},
 	})
 	register(&PropSpec{ID: "C11",
 		Explanation: "Structural clauses of Unfragment: frame condition.",
 		Assumptions: commonAssumptions,
-		Rules: []Rule{{"frame", ruleFrame("Subtitles.Unfragment")}},
+		Rules:       []Rule{{"frame", ruleFrame("Subtitles.Unfragment")}},
 	})
 	register(&PropSpec{ID: "C12",
 		Explanation: "Structural clauses of Order and Merge: frame conditions.",
 		Assumptions: commonAssumptions,
-		Rules: []Rule{{"frame-order", ruleFrame("Subtitles.Order")}, {"frame-merge", ruleFrame("Subtitles.Merge")}},
+		Rules:       []Rule{{"frame-order", ruleFrame("Subtitles.Order")}, {"frame-merge", ruleFrame("Subtitles.Merge")}},
 	})
 	register(&PropSpec{ID: "C13",
 		Explanation: "Structural clauses of Optimize and RemoveStyling: frame conditions.",
 		Assumptions: commonAssumptions,
-		Rules: []Rule{{"frame-optimize", ruleFrame("Subtitles.Optimize")}, {"frame-removestyling", ruleFrame("Subtitles.RemoveStyling")}},
+		Rules:       []Rule{{"frame-optimize", ruleFrame("Subtitles.Optimize")}, {"frame-removestyling", ruleFrame("Subtitles.RemoveStyling")}},
 	})
 	register(&PropSpec{ID: "C14",
 		Explanation: "Structural clauses of ForceDuration: frame condition.",
 		Assumptions: commonAssumptions,
-		Rules: []Rule{{"frame", ruleFrame("Subtitles.ForceDuration")}, {"frame-duration", ruleFrame("Subtitles.Duration")}},
+		Rules:       []Rule{{"frame", ruleFrame("Subtitles.ForceDuration")}, {"frame-duration", ruleFrame("Subtitles.Duration")}},
 	})
 	register(&PropSpec{ID: "C15",
 		Explanation: "Structural clauses of ApplyLinearCorrection: frame condition.",
 		Assumptions: commonAssumptions,
-		Rules: []Rule{{"frame", ruleFrame("Subtitles.ApplyLinearCorrection")}},
+		Rules:       []Rule{{"frame", ruleFrame("Subtitles.ApplyLinearCorrection")}},
 	})
 }
